@@ -1,2 +1,278 @@
+"""Kani units: harness modules under /verif/kani compiled inside the real crates (cfg(kani) hooks).
+One `cargo kani` run per crate per check; per-harness results become obligation records."""
+import os
+import re
+import subprocess
+import time
+
+from . import extract
+from .rustlex import ExtractError
+
+VERIF = os.path.dirname(os.path.dirname(os.path.abspath(__file__)))
+CACHE = os.path.join(VERIF, '.cache')
+GEN = os.path.join(CACHE, 'gen')
+REPO = extract.REPO
+
+# unit -> crate dir, harness name prefixes, per-harness strength notes
+UNITS = {
+    'K1': dict(crate='searchlite-core', prefixes=['k1_'], title='order contracts: compare_f32/f64/ord, SortKeyPart::cmp, SortKey::cmp (1-3 parts), RankedDoc::cmp, CompositeKeyPart/CompositeKey::cmp',
+               files=['searchlite-core/src/query/sort.rs', 'searchlite-core/src/query/wand.rs', 'searchlite-core/src/query/aggs/mod.rs'],
+               bounded={'k1_composite_key_cmp_len2': 'composite keys of exactly 2 numeric parts', 'k1_composite_key_cmp_transitive_len2': 'composite keys of exactly 2 numeric parts',
+                        'k1_key_cmp_transitive_2': 'sort keys of exactly 2 parts'},
+               assumes=['String: Ord is a total order (Str sort parts and Str composite parts are not executed under CBMC)',
+                        'sort keys compared with each other have the same value kind (or Missing) per position - what one SortPlan produces']),
+    'K7': dict(crate='searchlite-core', prefixes=['k7_'], title='flat score combinators: combine_rescore_scores, apply_boost_mode, combine_function_scores (max/min)',
+               files=['searchlite-core/src/api/reader.rs', 'searchlite-core/src/query/score_functions.rs'],
+               bounded={'k7_combine_function_scores_minmax_len_le_3': 'at most 3 function values, max/min modes only'},
+               assumes=['inputs are finite floats (CBMC reports inf + -inf / 0 * inf as NaN-producing otherwise); +0.0 and -0.0 are not distinguished']),
+    'K9': dict(crate='searchlite-core', prefixes=['k9_'], title='value selection for multi-valued sort fields: ValueSelector::from, pick_numeric',
+               files=['searchlite-core/src/query/sort.rs'],
+               bounded={'k9_pick_numeric_i64_len0': 'list length 0', 'k9_pick_numeric_i64_len1': 'list length 1', 'k9_pick_numeric_i64_len3': 'list length 3 (i64 values)'},
+               assumes=[]),
+    'K5': dict(crate='searchlite-ffi', prefixes=['k5_'], title='FFI copy tail and buffer guard of searchlite_search',
+               files=['searchlite-ffi/src/lib.rs'],
+               bounded={'k5_copy_stays_in_buffer': 'response length <= N and buf_cap <= N+2 with N = 32 (all byte values)'},
+               assumes=['the two slices are the only uses of out_json_buf in searchlite_search (checked mechanically by the extractor side-condition)',
+                        'null-argument guards of the other FFI entry points are not harnessed (kani-compiler panics once a harness reaches the engine)']),
+}
+
+
+def prepare_gen():
+    os.makedirs(GEN, exist_ok=True)
+    for name in ('sort', 'wand', 'aggs', 'reader', 'score_functions', 'ffi'):
+        p = os.path.join(GEN, 'playback_%s.rs' % name)
+        if not os.path.exists(p):
+            open(p, 'w').write('// concrete playback tests are written here when a harness fails\n')
+
+
+def gen_ffi_slice():
+    """re-extract the FFI slices from /repo's working tree; returns (ok, cause, rewrite_log, functions)"""
+    try:
+        unit, gen, tf = extract.expand(os.path.join(VERIF, 'kani', 'ffi_copy.tpl'))
+    except ExtractError as e:
+        return False, 'extractor: %s' % e, [], []
+    with open(os.path.join(GEN, 'ffi_copy.rs'), 'w') as f:
+        f.write(gen.text())
+    # side condition: out_json_buf is used nowhere else in searchlite_search
+    from .rustlex import RustFile
+    rf = RustFile(os.path.join(REPO, 'searchlite-ffi/src/lib.rs'))
+    it = rf.find_item('fn searchlite_search')
+    body = rf.masked[it['sig_end']:it['end']]
+    total = len(re.findall(r'(?<![A-Za-z0-9_])out_json_buf(?![A-Za-z0-9_])', body))
+    inslices = len(re.findall(r'(?<![A-Za-z0-9_])out_json_buf(?![A-Za-z0-9_])', gen.text())) - 2   # minus the two parameters
+    if total != inslices:
+        return False, 'side condition failed: out_json_buf is used %d times in searchlite_search but %d times inside the extracted slices' % (total, inslices), gen.rewrite_log, gen.functions
+    return True, None, gen.rewrite_log, gen.functions
+
+
+def run_cargo_kani(crate, prefixes, tier, extra=None, timeout=2400):
+    target = os.path.join(CACHE, 'kani-target-' + crate)
+    cmd = ['cargo', 'kani', '--target-dir', target, '-Z', 'function-contracts', '-j', '8', '--output-format', 'terse']
+    for p in prefixes:
+        cmd += ['--harness', p]
+    if extra:
+        cmd += extra
+    env = dict(os.environ, CARGO_NET_OFFLINE='true')
+    t0 = time.time()
+    try:
+        p = subprocess.run(cmd, cwd=os.path.join(REPO, crate), env=env, stdout=subprocess.PIPE, stderr=subprocess.STDOUT, text=True, timeout=timeout)
+        out, rc = p.stdout, p.returncode
+    except subprocess.TimeoutExpired as e:
+        out = (e.stdout or b'').decode(errors='replace') if isinstance(e.stdout, bytes) else (e.stdout or '')
+        out += '\nTIMEOUT after %ds' % timeout
+        rc = 124
+    return dict(cmd='(cd %s && CARGO_NET_OFFLINE=true %s)' % (os.path.join(REPO, crate), ' '.join(cmd)), out=out, rc=rc, wall_s=time.time() - t0)
+
+
+def parse_harness_results(out):
+    """-> {harness_short_name: dict(status, checks, failed, failed_checks[], covers, time_s, full_name)}"""
+    res = {}
+    cur = {}        # thread -> harness
+    lastthread = None
+    single = None
+    for line in out.split('\n'):
+        m = re.match(r'(?:Thread (\d+): )?Checking harness ([A-Za-z0-9_:]+)\.\.\.', line)
+        if m:
+            th = m.group(1) or 's'
+            full = m.group(2)
+            short = full.split('::')[-1]
+            res[short] = dict(status='unknown', checks=0, failed=0, failed_checks=[], covers=None, time_s=None, full_name=full)
+            cur[th] = short
+            lastthread = th
+            continue
+        m = re.match(r'Thread (\d+):\s*$', line)
+        if m:
+            lastthread = m.group(1)
+            continue
+        h = cur.get(lastthread) if lastthread is not None else None
+        if h is None:
+            continue
+        m = re.search(r'\*\* (\d+) of (\d+) failed', line)
+        if m:
+            res[h]['failed'] = int(m.group(1))
+            res[h]['checks'] = int(m.group(2))
+            continue
+        m = re.search(r'\*\* (\d+) of (\d+) cover properties satisfied', line)
+        if m:
+            res[h]['covers'] = (int(m.group(1)), int(m.group(2)))
+            continue
+        m = re.match(r'Failed Checks: (.*)', line)
+        if m:
+            res[h]['failed_checks'].append(m.group(1).strip())
+            continue
+        m = re.match(r'VERIFICATION:- (\w+)', line)
+        if m:
+            res[h]['status'] = m.group(1)
+            continue
+        m = re.match(r'Verification Time: ([0-9.]+)s', line)
+        if m:
+            res[h]['time_s'] = float(m.group(1))
+    return res
+
+
+def harness_source(name):
+    """(file, line, text) of a harness in /verif/kani"""
+    for fn in sorted(os.listdir(os.path.join(VERIF, 'kani'))):
+        if not fn.endswith('_verif.rs'):
+            continue
+        p = os.path.join(VERIF, 'kani', fn)
+        txt = open(p).read()
+        m = re.search(r'fn ' + re.escape(name) + r'\s*\(', txt)
+        if m:
+            return p, txt.count('\n', 0, m.start()) + 1
+    return None, None
+
+
+def expected_harnesses(prefixes):
+    names = []
+    for fn in sorted(os.listdir(os.path.join(VERIF, 'kani'))):
+        if not fn.endswith('_verif.rs'):
+            continue
+        txt = open(os.path.join(VERIF, 'kani', fn)).read()
+        for m in re.finditer(r'#\[kani::proof(?:_for_contract\([A-Za-z0-9_:]+\))?\]\s*(?:#\[kani::[a-z_]+\([^)]*\)\]\s*)*fn ([A-Za-z0-9_]+)', txt):
+            if any(m.group(1).startswith(p) for p in prefixes):
+                names.append(m.group(1))
+    return names
+
+
+def playback(crate, harness, modfile):
+    """re-run one failed harness with concrete playback, write the generated test into the playback include file and run it
+    natively (cargo kani playback): the harness body calls the REAL function with the counterexample values."""
+    target = os.path.join(CACHE, 'kani-target-' + crate)
+    env = dict(os.environ, CARGO_NET_OFFLINE='true')
+    cmd = ['cargo', 'kani', '--target-dir', target, '-Z', 'function-contracts', '-Z', 'concrete-playback', '--concrete-playback=print',
+           '--output-format', 'terse', '--harness', harness]
+    p = subprocess.run(cmd, cwd=os.path.join(REPO, crate), env=env, stdout=subprocess.PIPE, stderr=subprocess.STDOUT, text=True, timeout=1800)
+    m = re.search(r'```\s*\n((?:(?!```).)*?#\[test\](?:(?!```).)*?)```', p.stdout, re.S)
+    info = dict(print_cmd=' '.join(cmd), test=None, native=None)
+    if not m:
+        info['note'] = 'kani produced no concrete playback test'
+        return info
+    test = m.group(1)
+    info['test'] = test
+    pb = os.path.join(GEN, 'playback_%s.rs' % modfile)
+    try:
+        with open(pb, 'w') as f:
+            f.write('// concrete playback of %s\n%s\n' % (harness, test))
+        tname = re.search(r'fn (kani_concrete_playback_[A-Za-z0-9_]+)', test).group(1)
+        cmd2 = ['cargo', 'kani', 'playback', '-Z', 'concrete-playback', '--', tname]
+        env2 = dict(env, CARGO_TARGET_DIR=target + '-playback')
+        p2 = subprocess.run(cmd2, cwd=os.path.join(REPO, crate), env=env2, stdout=subprocess.PIPE, stderr=subprocess.STDOUT, text=True, timeout=2400)
+        info['native_cmd'] = ' '.join(cmd2)
+        tail = p2.stdout[-3000:]
+        info['native'] = tail
+        info['native_failed'] = ('panicked' in p2.stdout) or ('FAILED' in p2.stdout)
+    finally:
+        with open(pb, 'w') as f:
+            f.write('// concrete playback tests are written here when a harness fails\n')
+    return info
+
+
+MODFILE = {'sort_verif.rs': 'sort', 'wand_verif.rs': 'wand', 'aggs_verif.rs': 'aggs', 'reader_verif.rs': 'reader',
+           'score_functions_verif.rs': 'score_functions', 'ffi_verif.rs': 'ffi'}
+
+
 def run_kani_units(kids, tier):
-    return {}
+    prepare_gen()
+    results = {}
+    by_crate = {}
+    for k in kids:
+        by_crate.setdefault(UNITS[k]['crate'], []).append(k)
+    for crate, ks in by_crate.items():
+        t0 = time.time()
+        pre = {}
+        if crate == 'searchlite-ffi':
+            ok, cause, rlog, funcs = gen_ffi_slice()
+            pre = dict(ok=ok, cause=cause, rewrite_log=rlog, functions=funcs)
+        prefixes = [p for k in ks for p in UNITS[k]['prefixes']]
+        if pre and not pre['ok']:
+            run = dict(cmd='', out='', rc=2, wall_s=0)
+            parsed = {}
+        else:
+            run = run_cargo_kani(crate, prefixes, tier)
+            parsed = parse_harness_results(run['out'])
+        for k in ks:
+            u = UNITS[k]
+            res = dict(unit=k, backend='kani', state='ok', cause=None, functions=[], obligations=[], assumed=[], assumes=list(u['assumes']),
+                       rewrite_log=pre.get('rewrite_log', []) if pre else [], canary={}, checker_cmd=run['cmd'], wall_s=run['wall_s'], solver_s=0.0,
+                       title=u['title'], failures=[], bounds=dict(u['bounded']))
+            for f in u['files']:
+                res['functions'].append(dict(name=os.path.basename(f), kind='in-place (crate compiled by Kani with cfg(kani) harness module)', file=f, lines=None, item=None, sha256=None, contracted=True))
+            if pre and not pre['ok']:
+                res['state'] = 'undecided'
+                res['cause'] = pre['cause']
+                results[k] = res
+                continue
+            exp = expected_harnesses(u['prefixes'])
+            if not exp:
+                res['state'] = 'undecided'
+                res['cause'] = 'vacuous: no harnesses found for %s' % k
+            covers_ok = 0
+            covers_all = 0
+            for h in exp:
+                r = parsed.get(h)
+                src, line = harness_source(h)
+                strength = 'bounded' if h in u['bounded'] else 'proved'
+                o = dict(id='%s.%s' % (k, h), unit=k, function=h, kind='kani-harness', backend='kani', status='discharged', strength=strength,
+                         text=(u['bounded'].get(h) and 'BOUNDED: ' + u['bounded'][h]) or 'all values of the symbolic inputs (loop-free / constant trip counts, unwinding assertions on)',
+                         repo_loc='kani/%s:%s' % (os.path.basename(src) if src else '?', line))
+                if r is None or r['status'] == 'unknown':
+                    o['status'] = 'undecided'
+                    res['state'] = 'undecided'
+                    res['cause'] = 'harness %s did not run (compile error, timeout or OOM): %s' % (h, run['out'][-600:].replace('\n', ' | '))
+                elif r['status'] == 'SUCCESSFUL':
+                    o['checks'] = r['checks']
+                    o['time_s'] = r['time_s']
+                    res['solver_s'] += r['time_s'] or 0
+                    if r['covers']:
+                        covers_all += r['covers'][1]
+                        covers_ok += r['covers'][0]
+                        if r['covers'][0] != r['covers'][1]:
+                            o['status'] = 'undecided'
+                            res['state'] = 'undecided'
+                            res['cause'] = 'vacuous: cover property of %s not satisfied' % h
+                    if r['checks'] == 0:
+                        o['status'] = 'undecided'
+                        res['state'] = 'undecided'
+                        res['cause'] = 'vacuous: harness %s generated zero checks' % h
+                else:
+                    # FAILED: unwinding failures / unsupported features are undecided, assertion failures are violations
+                    fc = r['failed_checks']
+                    und = [c for c in fc if re.search(r'unwinding assertion|not currently supported|unsupported|unreachable code', c)]
+                    o['checks'] = r['checks']
+                    if fc and len(und) == len(fc):
+                        o['status'] = 'undecided'
+                        res['state'] = 'undecided' if res['state'] == 'ok' else res['state']
+                        res['cause'] = 'harness %s: %s' % (h, '; '.join(fc[:3]))
+                    else:
+                        o['status'] = 'failed'
+                        res['state'] = 'failed'
+                        res['failures'].append(dict(obligation=o['id'], function=h, kind='kani-harness', message='; '.join(fc[:6]) or 'VERIFICATION FAILED',
+                                                    repo_loc=o['repo_loc'], source_text=h, clause=o['text'], rendered='Kani: harness %s FAILED\nfailed checks: %s\n' % (r['full_name'], '; '.join(fc)),
+                                                    kani=dict(crate=crate, harness=h, modfile=MODFILE.get(os.path.basename(src or ''), None))))
+                res['obligations'].append(o)
+            res['canary'] = dict(targets=covers_all, failed_as_expected=covers_ok, note='kani::cover! statements: all must be satisfiable')
+            res['n_obligations'] = len(res['obligations'])
+            res['wall_s'] = time.time() - t0
+            results[k] = res
+    return results
